@@ -224,6 +224,19 @@ func CheckEnum(c EnumCase, seed uint64, nRandom int, otherNames []string, res *E
 					res.find(fmt.Sprintf("enum=%s value=%d what=render", c.Name, v),
 						fmt.Sprintf("rendering %q does not name all flags of the value", text), v)
 				}
+				// "the names of the flags it contains": every defined flag whose bits are all set is named, also one whose bits are
+				// covered by other flags (a composite like AB = A | B)
+				named := map[string]bool{}
+				for _, piece := range strings.Split(text, " | ") {
+					named[piece] = true
+				}
+				for _, f := range flags {
+					if f.Value&v == f.Value && !named[f.Name] {
+						res.find(fmt.Sprintf("enum=%s value=%d what=render", c.Name, v),
+							fmt.Sprintf("rendering %q leaves out flag %s (%d), which the value contains", text, f.Name, f.Value), v)
+						break
+					}
+				}
 			})
 		}
 		check(0)
